@@ -71,8 +71,8 @@ def main():
                 continue
             collect(tag, tree, checks)
             sh(f'git -C /repo worktree remove --force {tree}')
-        elif tag == 'seeds':
-            for seed in sorted(os.listdir(os.path.join(VERIF, 'seeded'))):
+        elif tag == 'seeds' or os.path.isdir(os.path.join(VERIF, 'seeded', tag)):
+            for seed in sorted(os.listdir(os.path.join(VERIF, 'seeded'))) if tag == 'seeds' else [tag]:
                 meta = json.load(open(os.path.join(VERIF, 'seeded', seed, 'meta.json')))
                 checks = [c.strip() for c in meta.get('caught_by_quick_tier', '').replace('(', ',').split(',') if c.strip().startswith('C') and len(c.strip()) == 3][:1]
                 if not checks:
